@@ -20,7 +20,16 @@ use crate::world::{gen_op, Dirs, Op, World};
 #[derive(Clone, Debug, Serialize, Deserialize, PartialEq)]
 pub enum Scenario {
     /// (a) cross-copy agreement under concurrent writers, optionally with failing log writes
-    Cross { sim_seed: u64, sched: SchedSpec, setup: Vec<Op>, actors: Vec<Vec<Op>>, fail_truth_writes: Vec<u32> },
+    Cross {
+        sim_seed: u64,
+        sched: SchedSpec,
+        setup: Vec<Op>,
+        actors: Vec<Vec<Op>>,
+        fail_truth_writes: Vec<u32>,
+        /// remove the rebuildable cache directory after the setup phase (the store keeps running)
+        #[serde(default)]
+        drop_caches: bool,
+    },
     /// (b) serde round trip of generated frames through log, sidecar and snapshot
     RoundTrip { seed: u64, count: u32 },
 }
@@ -54,6 +63,7 @@ pub fn generate(run_seed: u64, tier: Tier) -> Scenario {
         setup: vec![Op::EnsureDefault, Op::AppendMessage { thread: 0, size: 1 }],
         actors,
         fail_truth_writes: fails,
+        drop_caches: rng.chance(1, 4),
     }
 }
 
@@ -61,7 +71,7 @@ fn ev_value(e: &Event) -> Value {
     serde_json::to_value(e).unwrap_or(Value::Null)
 }
 
-fn cross(sim_seed: u64, sched: &SchedSpec, setup: &[Op], actors: &[Vec<Op>], fail_truth_writes: &[u32], env: &Env) -> (Outcome, RunStats) {
+fn cross(sim_seed: u64, sched: &SchedSpec, setup: &[Op], actors: &[Vec<Op>], fail_truth_writes: &[u32], drop_caches: bool, env: &Env) -> (Outcome, RunStats) {
     let mut stats = RunStats::default();
     let dirs = storesim::begin_run(&env.root, sim_seed, 250_000);
     let world = Arc::new(World::new(dirs.clone()));
@@ -75,6 +85,10 @@ fn cross(sim_seed: u64, sched: &SchedSpec, setup: &[Op], actors: &[Vec<Op>], fai
     let mut rx = world.st().store.subscribe();
     let truth_str = dirs.truth_path().to_string_lossy().to_string();
     let _ = storesim::run_phase(&world, &[setup.to_vec()], 100, sched.config(0), |_| Verdict::proceed());
+    if drop_caches {
+        let _ = std::fs::remove_dir_all(dirs.streams_dir());
+        stats.bump("fault:cache_dir_removed_while_running", 1);
+    }
     let counter = Arc::new(Mutex::new((0u32, 0u64)));
     let c2 = counter.clone();
     let fails = fail_truth_writes.to_vec();
@@ -107,6 +121,19 @@ fn cross(sim_seed: u64, sched: &SchedSpec, setup: &[Op], actors: &[Vec<Op>], fai
             Err(tokio::sync::broadcast::error::TryRecvError::Empty) | Err(tokio::sync::broadcast::error::TryRecvError::Closed) => break,
             Err(tokio::sync::broadcast::error::TryRecvError::Lagged(_)) => return finish(Outcome::Harness("subscriber lagged".into()), stats),
         }
+    }
+    // what the store itself replays for every thread (whatever read path it picks)
+    let replayed: Arc<Mutex<BTreeMap<String, Result<Vec<Value>, String>>>> = Arc::new(Mutex::new(BTreeMap::new()));
+    {
+        let (w, r2) = (world.clone(), replayed.clone());
+        let ids: Vec<String> = model::parse_truth_file(&dirs.truth_path()).map(|t| t.thread_ids()).unwrap_or_default();
+        let _ = storesim::run_single("replayer", move || {
+            let st = w.st();
+            for t in ids {
+                let r = st.store.replay_events(&t).map(|ev| ev.iter().map(ev_value).collect::<Vec<_>>()).map_err(|e| e.to_string());
+                r2.lock().unwrap().insert(t, r);
+            }
+        });
     }
     world.close();
     stats.bump("live_frames", live.len() as u64);
@@ -162,6 +189,38 @@ fn cross(sim_seed: u64, sched: &SchedSpec, setup: &[Op], actors: &[Vec<Op>], fai
         }
         stats.bump("threads_compared_live_vs_log", truth.thread_ids().len() as u64);
     }
+    // store replay vs log
+    if fault_free {
+        for (t, r) in replayed.lock().unwrap().iter() {
+            let want: Vec<String> = truth.thread(t).iter().map(|f| canon(&f.v)).collect();
+            match r {
+                Ok(got) => {
+                    let got: Vec<String> = got.iter().map(canon).collect();
+                    if got != want {
+                        return finish(
+                            Outcome::Violation(Violation {
+                                class: "store_replay_differs_from_log".into(),
+                                signature: format!(
+                                    "store_replay_differs_from_log:{}:{}",
+                                    if drop_caches { "after_cache_dir_removed" } else { "caches_intact" },
+                                    {
+                                        // shape of the sidecar the store trusted
+                                        let image = crate::faults::read_tree(&dirs.data);
+                                        let st = crate::checks::c04::stale_wellformed_sidecars(&image, &truth, t);
+                                        st.iter().find(|x| x.starts_with("full=")).cloned().unwrap_or_else(|| "full=exact_or_absent".into())
+                                    }
+                                ),
+                                detail: format!("thread {t}: replay_events returns {} frames, the log holds {}", got.len(), want.len()),
+                            }),
+                            stats,
+                        );
+                    }
+                }
+                Err(e) => return finish(Outcome::Violation(Violation { class: "store_replay_failed".into(), signature: "store_replay_failed".into(), detail: format!("thread {t}: {e}") }), stats),
+            }
+            stats.bump("threads_compared_store_replay_vs_log", 1);
+        }
+    }
     // (iii) sidecar vs log
     for t in truth.thread_ids() {
         let p = dirs.streams_dir().join(format!("{t}.jsonl"));
@@ -197,7 +256,7 @@ fn cross(sim_seed: u64, sched: &SchedSpec, setup: &[Op], actors: &[Vec<Op>], fai
             }
             ids.push(id);
         }
-        if fault_free {
+        if fault_free && !drop_caches {
             let want: Vec<String> = truth.thread(&t).iter().map(|f| f.id.clone()).collect();
             if want != ids {
                 return finish(Outcome::Violation(Violation { class: "sidecar_sequence_differs_from_log".into(), signature: "sidecar_sequence_differs_from_log".into(), detail: format!("thread {t}: log {} frames, sidecar {}", want.len(), ids.len()) }), stats);
@@ -357,8 +416,8 @@ fn brief(s: &str) -> String {
 
 pub fn execute(sc: &Scenario, env: &Env) -> (Outcome, RunStats) {
     match sc {
-        Scenario::Cross { sim_seed, sched, setup, actors, fail_truth_writes } => {
-            let (o, mut s) = cross(*sim_seed, sched, setup, actors, fail_truth_writes, env);
+        Scenario::Cross { sim_seed, sched, setup, actors, fail_truth_writes, drop_caches } => {
+            let (o, mut s) = cross(*sim_seed, sched, setup, actors, fail_truth_writes, *drop_caches, env);
             s.bump("cross_copy_runs", 1);
             (o, s)
         }
@@ -407,14 +466,14 @@ impl Check for C03 {
                     out.push(Scenario::RoundTrip { seed: *seed, count: count - 1 });
                 }
             }
-            Scenario::Cross { sim_seed, sched, setup, actors, fail_truth_writes } => {
+            Scenario::Cross { sim_seed, sched, setup, actors, fail_truth_writes, drop_caches } => {
                 for a in 0..actors.len() {
                     for k in (0..actors[a].len()).rev() {
                         let mut na = actors.clone();
                         na[a].remove(k);
                         let mut s2 = sched.clone();
                         s2.schedules = None;
-                        out.push(Scenario::Cross { sim_seed: *sim_seed, sched: s2, setup: setup.clone(), actors: na, fail_truth_writes: fail_truth_writes.clone() });
+                        out.push(Scenario::Cross { sim_seed: *sim_seed, sched: s2, setup: setup.clone(), actors: na, fail_truth_writes: fail_truth_writes.clone(), drop_caches: *drop_caches });
                     }
                 }
             }
